@@ -89,6 +89,30 @@ def same_outcome(o, ref):
 _hangs = [0]
 
 
+def _outcome_of_repeating(fn, limit=4.0):
+    """core_run.outcome_of with a REPEATING alarm: a one-shot SIGALRM is lost when it happens to be delivered inside code
+    that swallows exceptions (weakref callbacks, __del__), and the render then runs unbounded."""
+    import signal
+    import sys
+    old = sys.getrecursionlimit()
+    signal.signal(signal.SIGALRM, R._alarm)
+    signal.setitimer(signal.ITIMER_REAL, limit, 0.25)
+    try:
+        try:
+            return ("ok", R.canon(fn()))
+        finally:
+            signal.setitimer(signal.ITIMER_REAL, 0)
+    except R.RenderTimeout:
+        return ("err", "other:Timeout")
+    except RecursionError:
+        return ("err", "other:RecursionError")
+    except Exception as e:  # noqa
+        return ("err", R.ERRMAP.get(type(e).__name__, "other:" + type(e).__name__))
+    finally:
+        signal.setitimer(signal.ITIMER_REAL, 0)
+        sys.setrecursionlimit(old)
+
+
 def evaluate(chk, cases, tag):
     """run implementation + reference (Coq) for every case; rows = [kind, idx, prog, impl_outcome, agrees]"""
     rows, terms = [], []
@@ -232,6 +256,7 @@ def run(tier, seed):
     import djsetup
     djsetup.setup()
     djsetup.patch_ids()
+    R.outcome_of = _outcome_of_repeating     # this process only
     chk = C.Check("C03", tier, seed)
     chk.prove()
     _hangs[0] = 0
